@@ -401,6 +401,47 @@ theorem allClose_zero (a b : List Rat) : allClose 0 a b = true ↔ a = b := by
   | nil => cases b <;> simp [allClose]
   | cons x xs ih => cases b <;> simp [allClose, relClose_zero, ih]
 
+/-! ### add_units -/
+
+theorem addUnitsPhys_of_scaled {u u' : Units} {k : Rat} (hx : k * u'.phys.x = u.phys.x) (hy : k * u'.phys.y = u.phys.y)
+    (hz : k * u'.phys.z = u.phys.z) (d : Nat) (raw : Rat) :
+    addUnitsPhys d u' (raw * k ^ d) = addUnitsPhys d u raw := by
+  unfold addUnitsPhys
+  rw [← hx, ← hy, ← hz, mul_pow, mul_pow, mul_pow]
+  apply V3.ext' <;> simp only [] <;> ring
+
+theorem addUnitsPhys_of_unscaled {u u' : Units} {k : Rat} (hk : k ≠ 0) (hx : u'.phys.x = k * u.phys.x)
+    (hy : u'.phys.y = k * u.phys.y) (hz : u'.phys.z = k * u.phys.z) (d : Nat) (raw : Rat) :
+    addUnitsPhys d u' (raw / k ^ d) = addUnitsPhys d u raw := by
+  have hkd : k ^ d ≠ 0 := pow_ne_zero d hk
+  unfold addUnitsPhys
+  rw [hx, hy, hz, mul_pow, mul_pow, mul_pow]
+  apply V3.ext' <;> simp only [] <;> field_simp
+
+theorem addUnitsPhys_mul {n m : Neuron} {k : Rat} {p : Int} (hk : n.kind ≠ .voxel) (h : mul n (.s k) p = some m)
+    (d : Nat) (raw : Rat) : addUnitsPhys d m.units (raw * k ^ d) = addUnitsPhys d n.units raw := by
+  obtain ⟨hnz, rfl⟩ := mul_nonvoxel hk h
+  have hf := xyz_nz hnz
+  have e := phys_div_mul n.units (Factor.s k).xyz p hf (V3.rep 1)
+  have ex := congrArg V3.x e; have ey := congrArg V3.y e; have ez := congrArg V3.z e
+  simp only [V3.mul, V3.rep, Factor.xyz, one_mul] at ex ey ez
+  exact addUnitsPhys_of_scaled ex ey ez d raw
+
+theorem addUnitsPhys_div {n m : Neuron} {k : Rat} {p : Int} (hk : n.kind ≠ .voxel) (h : div n (.s k) p = some m)
+    (d : Nat) (raw : Rat) : addUnitsPhys d m.units (raw / k ^ d) = addUnitsPhys d n.units raw := by
+  obtain ⟨hnz, rfl⟩ := div_nonvoxel hk h
+  have hk0 : k ≠ 0 := by simpa [Factor.nz] using hnz
+  apply addUnitsPhys_of_unscaled hk0 <;> rw [compact_phys] <;>
+    simp only [Units.phys, V3.mul, V3.rep, Factor.xyz] <;> ring
+
+theorem addUnitsB_zero (d : Nat) (u : Units) (raw : Rat) (q : V3) :
+    addUnitsB 0 d u raw q = true ↔ q = addUnitsPhys d u raw := by
+  unfold addUnitsB
+  simp only [Bool.and_eq_true, relClose_zero]
+  constructor
+  · rintro ⟨⟨h1, h2⟩, h3⟩; exact V3.ext' h1 h2 h3
+  · rintro rfl; exact ⟨⟨rfl, rfl⟩, rfl⟩
+
 /-! ### exact rational square roots -/
 
 theorem sqrtQ_mul_self {r : Rat} (hr : 0 ≤ r) : sqrtQ (r * r) = r := by
